@@ -365,6 +365,41 @@ Definition forward_samples (m : lmodel) (r : rep) (cols : list val) : option (li
 Definition adjoint_samples (m : lmodel) (r : rep) (cols : list val) : option (list val) := all_some (map (adjoint_rep m r) cols).
 
 (* ------------------------------------------------------------------------------------------ *)
+(* KLExpansion.par2fun / fun2par written out (scipy.fftpack dst / idst of type 2 enter as their matrices) *)
+(* ------------------------------------------------------------------------------------------ *)
+Fixpoint zipw {A B C} (f : A -> B -> C) (a : list A) (b : list B) : list C :=
+  match a, b with x :: a', y :: b' => f x y :: zipw f a' b' | _, _ => [] end.
+
+(* par2fun p = idst(pad_N(coefs * p / normalizer)) / 2 : the N x m matrix of that map *)
+Definition kl_G (m : nat) (coefs : list Qc) (tau : Qc) (idstM : list (list Qc)) : list (list Qc) :=
+  map (fun row => zipw (fun s c => s * (c / (qcz 2 * tau))) (firstn m row) coefs) idstM.
+(* fun2par f = coefs^-1 * dst(2 f)[:m] * normalizer / (2 N) : the m x N matrix of that map *)
+Definition kl_Ginv (N : nat) (coefs : list Qc) (tau : Qc) (dstM : list (list Qc)) : list (list Qc) :=
+  zipw (fun c row => qvscale (qcz 2 * tau / (c * (qcz 2 * qcz (Z.of_nat N)))) row) coefs dstM.
+Definition kl_geom (N m : nat) (coefs : list Qc) (tau : Qc) (dstM idstM : list (list Qc)) : geom :=
+  GLin m N (kl_G m coefs tau idstM) (kl_Ginv N coefs tau dstM).
+
+(* ------------------------------------------------------------------------------------------ *)
+(* Model.gradient of a LinearModel: _gradient_func = fun direction wrt => _adjoint_func direction  *)
+(* ------------------------------------------------------------------------------------------ *)
+(* type(geometry) in _get_identity_geometries(): Continuous1D/2D, Discrete, Image2D, the default geometries *)
+Definition id_type (g : geom) : bool := match g with GId _ | GImage _ _ _ => true | _ => false end.
+
+(* gradient(direction, wrt): refused (None) unless the range geometry is of identity type and the domain geometry is of identity
+   type or brings its own `gradient` method.  userg = Some c: the domain geometry is a user geometry with gradient(g, wrt) = c.g
+   (the transposed Jacobian of a scaling map c.x), whose result already is a parameter vector; wrt does not enter (linear model).
+   dir_is_fun: is_direction_par=False *)
+Definition gradient (userg : option Qc) (dir_is_fun : bool) (m : lmodel) (d : val) : option val :=
+  if negb (id_type (lm_R m)) then None else
+  match userg with
+  | Some c => obind (if dir_is_fun then Some d else p2f (lm_R m) d)
+                (fun fd => obind (lm_adj m fd) (fun g => match g with V1 l => Some (V1 (qvscale c l)) | V2 _ _ _ => None end))
+  | None => if id_type (lm_D m)
+            then obind (if dir_is_fun then Some d else p2f (lm_R m) d) (fun fd => obind (lm_adj m fd) (f2p (lm_D m)))
+            else None
+  end.
+
+(* ------------------------------------------------------------------------------------------ *)
 (* comparison with what the implementation returned (tol = 0: exact)                          *)
 (* ------------------------------------------------------------------------------------------ *)
 Definition vec_ok (tol : Q) (obs : option (list Qc)) (mod_ : option val) : bool :=
@@ -409,3 +444,5 @@ Definition check_forward_samples tol m r cols obs := vals_ok tol obs (forward_sa
 Definition check_adjoint_samples tol m r cols obs := vals_ok tol obs (adjoint_samples m r cols).
 Definition check_get_matrix_gen (tol : Q) (as_is : bool) (m : lmodel) (obs : option (list (list Qc))) : bool :=
   mat_ok tol obs (get_matrix_gen as_is m).
+Definition check_gradient (tol : Q) (userg : option Qc) (dir_is_fun : bool) (m : lmodel) (d : val) (obs : option (list Qc)) : bool :=
+  vec_ok tol obs (gradient userg dir_is_fun m d).
